@@ -105,9 +105,24 @@ def showObj (probe : Key) (keys : List Key) : Option (Obj StdV) → String
   | none => "None"
   | some o => if o.attrs.isEmpty then "obj" else "|".intercalate (o.attrs.map (showAttr probe keys))
 
+/-- which entry point: `read` = iter_table, `readt` = read_table, `readm` = TableReader.read_list -/
+def viaOf : List Char → Option Nat
+  | ['r','e','a','d'] => some 0
+  | ['r','e','a','d','t'] => some 1
+  | ['r','e','a','d','m'] => some 2
+  | _ => none
+
+def outOf (r : Except Err (List (Option (Obj StdV)))) : Out StdV :=
+  match r with
+  | .ok objs => ⟨objs, none⟩
+  | .error e => ⟨[], some e⟩
+
 def handle (line : String) : String :=
   match (splitWs line).map String.toList with
-  | [['r','e','a','d'], stop, ladder, numId, probe, titles, rules, sheet] =>
+  | [op, stop, ladder, numId, probe, titles, rules, sheet] =>
+    match viaOf op with
+    | none => "bad-op"
+    | some via =>
     match (if stop = ['a'] then some Stop.blankAll else if stop = ['f'] then some Stop.blankFirst else none),
           (if ladder = ['1'] then some true else if ladder = ['0'] then some false else none),
           natOf numId, parseStr probe,
@@ -115,7 +130,11 @@ def handle (line : String) : String :=
           (if rules = ['-'] then some [] else (splitCh ';' rules).mapM parseRule),
           parseSheet sheet with
     | some stop, some ladder, some numId, some probe, some keys, some rules, some rows =>
-      let out := iterTable stdConv ⟨stop, ladder, numId, rules⟩ (mkSheet rows)
+      let cfg : Cfg StdV := ⟨stop, ladder, numId, rules⟩
+      let out := match via with
+        | 0 => iterTable stdConv cfg (mkSheet rows)
+        | 1 => outOf (readTable stdConv cfg (mkSheet rows))
+        | _ => outOf (readList stdConv numId rules (mkSheet rows))
       " ".intercalate (out.objs.map (showObj probe (sortDedup keys)) ++
         [match out.err with | none => "end" | some e => "err:" ++ e.name])
     | _, _, _, _, _, _, _ => "bad-op"
